@@ -1,15 +1,19 @@
 #!/bin/bash
 # usage: tools/try_mutant.sh <patch> <tier> <prop> [<prop>...]
-# applies a patch to /repo, runs the given checks, and reverts the patch.
+# applies a patch to a scratch worktree of /repo (never to /repo itself), runs the given
+# checks against it (REPO=<worktree>), and removes the worktree afterwards.
 patch=$1; tier=$2; shift 2
 cd /verif
-git -C /repo apply "$patch" || { echo "patch does not apply"; exit 3; }
+W=/var/tmp/verif-mutrepo-$$
+git -C /repo worktree add -q --detach $W HEAD || exit 3
+trap 'git -C /repo worktree remove --force $W; git -C /repo worktree prune' EXIT
+git -C $W apply "$patch" || { echo "patch does not apply"; exit 3; }
+mkdir -p /var/tmp/verif-mut-evidence
 for p in "$@"; do
-  ./check $p $tier > /tmp/mut_$p.log 2>&1; code=$?
+  cp evidence/$p.json /var/tmp/verif-mut-evidence/$p.json 2>/dev/null
+  REPO=$W ./check $p $tier > /tmp/mut_$p.log 2>&1; code=$?
   echo "== $p $tier exit=$code: $(grep -a -c '^VIOLATION' /tmp/mut_$p.log) violations; $(grep -a 'violation: harness' /tmp/mut_$p.log | sed 's/.*harness=\([^ ]*\) label=\([^ ]*\).*/\1:\2/' | sort -u | tr '\n' ' ' | cut -c1-400)"
   grep -a "ENGINE-MISMATCH\|INCONCLUSIVE" /tmp/mut_$p.log | head -3 | cut -c1-300
+  # the mutant run rewrote the evidence file: restore the one from the unchanged tree
+  cp /var/tmp/verif-mut-evidence/$p.json evidence/$p.json 2>/dev/null
 done
-git -C /repo checkout -- .
-git -C /repo status --short | head -3
-# evidence files were rewritten by the mutant runs: restore the committed ones
-git checkout -- evidence 2>/dev/null
